@@ -10,7 +10,7 @@ use crate::wasm::MsgRec;
 use cosmwasm_std::Decimal;
 use cw20::Expiration;
 use serde_json::Value;
-use std::collections::BTreeMap;
+use std::collections::{BTreeMap, BTreeSet};
 
 // ======================================================================= C12
 
@@ -47,6 +47,60 @@ fn check_delegation_plan(ctx: &StepCtx, what: &str, amount: u128, targets: &BTre
     let vals: Vec<&u128> = targets.values().collect();
     if vals.windows(2).any(|w| w[0] == w[1]) {
         stats.probe("c12_ties");
+    }
+}
+
+/// The registry's answer to GetValidatorsForDelegation (the list every plan is computed over)
+/// names exactly the registered validators — the deployment's initial list changed only by
+/// committed AddValidator / RemoveValidator messages — each with the hub's live delegation.
+pub fn c12_registry_model(m: &mut Mon, ctx: &StepCtx, stats: &mut Stats, out: &mut Vec<Violation>) {
+    let model = match m.registry_model.as_mut() {
+        Some(x) => x,
+        None => return,
+    };
+    if let Some(o) = ctx.out {
+        if o.ok {
+            for c in &o.calls {
+                if !c.ok {
+                    continue;
+                }
+                match c.exec() {
+                    Some((REGISTRY, "add_validator", body)) => {
+                        if let Some(a) = body.get("validator").and_then(|v| v.get("address")).and_then(|a| a.as_str()) {
+                            model.insert(a.to_string());
+                        }
+                    }
+                    Some((REGISTRY, "remove_validator", body)) => {
+                        if let Some(a) = body.get("address").and_then(|a| a.as_str()) {
+                            model.remove(a);
+                        }
+                    }
+                    _ => {}
+                }
+            }
+        }
+    }
+    let reg = match &ctx.post.registry {
+        Some(r) => r,
+        None => return,
+    };
+    stats.check("c12_registry_model");
+    if reg.len() > 10 {
+        stats.probe("c12_more_than_ten_registered_validators");
+    }
+    let listed: BTreeSet<String> = reg.iter().map(|v| v.address.clone()).collect();
+    if listed != *model || listed.len() != reg.len() {
+        let msg = format!("GetValidatorsForDelegation lists {:?} but the registered set (deployment + committed add / remove messages) is {:?} (after {:?})", reg.iter().map(|v| &v.address).collect::<Vec<_>>(), model, ctx.top());
+        viol(out, "C12", "plan_candidates_are_the_registered_validators", ctx.idx, "registry.GetValidatorsForDelegation:set", msg.clone());
+        viol(out, "C13", "removed_validator_leaves_registry", ctx.idx, "registry.GetValidatorsForDelegation:set", msg);
+        return;
+    }
+    for v in reg {
+        let live = ctx.post_w.delegation(HUB, &v.address);
+        if v.total_delegated.u128() != live {
+            viol(out, "C12", "plan_candidates_report_live_delegations", ctx.idx, "registry.GetValidatorsForDelegation:total_delegated", format!("{} is reported with {} delegated, the hub's delegation is {}", v.address, v.total_delegated, live));
+            break;
+        }
     }
 }
 
